@@ -9,6 +9,9 @@ KINDS = ['ok', 'ok_json_accept', 'notfound', 'notfound_json', 'wrongverb', 'badp
          'cookie_then_abort', 'head_ok', 'rex', 'typed', 'expires', 'longpath', 'longquery', 'status_str', 'status_int', 'signed', 'urlinfo', 'auth', 'bigform', 'chunked_ok', 'header_case', 'inject_arg', 'notmodified', 'nocontent', 'blog_direct', 'dm_info', 'resp_copy', 'form_fixed', 'sess_mutate', 'qs_reassign', 'api_404', 'api_item', 'neg_cl', 'hugepath', 'urlbuild', 'manyheaders']
 
 
+# kinds for sequential histories only (their handlers change application-wide state on purpose: hooks, a shared prepared error object)
+KINDS_SEQ = KINDS + ['oneshot', 'prepared_error']
+
 _DEFAULT_ERRORS = []
 
 
@@ -30,8 +33,9 @@ def custom_errors():
     """An errors_map a user might configure: other statuses than the stock ones."""
     import ombott
     from ombott.request_pkg import errors as rqe
-    return {rqe.RequestError: ombott.HTTPError(422, 'custom: unprocessable'), rqe.BodySizeError: ombott.HTTPError(413, 'custom: too large'),
-            rqe.BodyParsingError: ombott.HTTPError(422, 'custom: cannot parse')}
+    # (the texts hold characters an HTML page has to escape: these objects outlive the requests that hit them)
+    return {rqe.RequestError: ombott.HTTPError(422, 'custom: can\'t process <this> & "that"'), rqe.BodySizeError: ombott.HTTPError(413, 'custom: can\'t accept more than <limit> bytes & no "more"'),
+            rqe.BodyParsingError: ombott.HTTPError(422, 'custom: cannot parse <body> & \'rest\'')}
 
 
 class Env(dict):
@@ -266,6 +270,27 @@ def make_app(probe=None, config=None, private_errors=False, app=None, foreign=No
         found = sum(1 for i in range(150) if rq.headers.get('X-H-%s-%d' % (q, i)) is not None)
         return 'hdrs %s %s %d' % (q, tag, found)
 
+    prepared = ombott.HTTPError(409, 'can\'t <merge> & "retry" later')          # one error object prepared once and answered on every call
+
+    @app.route('/prepared', overwrite=True)
+    def prepared_error():
+        # (returned, not raised: an exception object that is raised again and again collects tracebacks by itself - Python semantics, the application's own leak)
+        return prepared
+
+    @app.route('/oneshot', overwrite=True)
+    def oneshot():
+        # two run-once after_request callbacks for THIS request (they unregister themselves when they run)
+        q = rq.query.get('q', '')
+
+        def mk(i):
+            def cb():
+                rs.headers['X-Audit-%d' % i] = 'audit %s' % q
+                app.remove_hook('after_request', cb)
+            return cb
+        for i in (1, 2, 3):
+            app.add_hook('after_request', mk(i))
+        return 'oneshot ' + q
+
     @app.route('/api/item/<x>', overwrite=True)
     def api_item(x):
         return 'api item %s' % x
@@ -348,6 +373,10 @@ def make_env(kind, n, stream_cls=Stream):
         return _e('GET', '/see/%d' % n, q)
     if kind == 'manyheaders':
         return _e('GET', '/hdrs', q, headers=dict({'X-Tag': 't%d' % n, 'X-In': 'in%d' % n}, **{'X-H-%s-%d' % (q[2:], i): 'v' for i in range(0, 150, 7)}))
+    if kind == 'oneshot':
+        return _e('GET', '/oneshot', q)
+    if kind == 'prepared_error':
+        return _e('GET', '/prepared', q, headers={'Accept': 'application/json' if n % 3 == 0 else 'text/html'})
     if kind == 'qs_reassign':
         return _e('GET', '/reassign', q, headers={'Cookie': 'seen=v%d' % n})
     if kind == 'api_404':
